@@ -1104,6 +1104,11 @@ func (fx *fctx) intrinsic(st *State, name string, ce *ast.CallExpr) ([]*Value, b
 	case "wrapInt":
 		x := fx.evalInt(st, ce.Args[0])
 		return []*Value{{T: t, Tm: ts.App("wrap_i64", SInt, x)}}, true
+	case "sameFloat":
+		// sameFloat(a, b): the two floats are the same value (identity, unlike Go's ==, which is false for NaN)
+		a := fx.eval(st, ce.Args[0])
+		b := fx.eval(st, ce.Args[1])
+		return []*Value{{T: t, Tm: ts.Eq(a.Tm, b.Tm)}}, true
 	case "sharedBuiltin":
 		// sharedBuiltin(p): p is one of the package's shared built-in values (uninterpreted; see mapvals)
 		p := fx.eval(st, ce.Args[0])
